@@ -12,7 +12,7 @@
 From AK Require Import Base.Prelude Bytes.Text Bytes.FabHeader Bytes.BinFile
   Reader.Select Reader.BoxRead Reader.Level Reader.ReadSpec
   Writers.Colander Writers.ColanderSpec Writers.CombineProofs Writers.Chef Writers.ChefProofs Writers.Pipeline
-  Plotfile.TextHeader Taste.Taste Plotfile.Abstract Writers.ColanderToolProofs Writers.ColanderPipeline Writers.Combine Writers.CombineSpec Writers.CombineToolProofs Writers.CombinePipeline Writers.ChefToolProofs Writers.ChefPipeline Props.C05 Props.C06.
+  Plotfile.TextHeader Plotfile.HeaderSpec Taste.Taste Plotfile.Abstract Writers.ColanderToolProofs Writers.ColanderPipeline Writers.Combine Writers.CombineSpec Writers.CombineToolProofs Writers.CombinePipeline Writers.ChefToolProofs Writers.ChefPipeline Writers.FullPipeline Props.C05 Props.C06 Props.C11.
 
 (* Any finite sequence of operations, each of which preserves well-formedness
    and refines its pure counterpart, ends in a well-formed state whose
@@ -89,6 +89,55 @@ Theorem C14_chain_then_chef : forall ops pf pf' recipe keep outnames,
   Forall (fun d => exists p, good p /\ d = pf_disk p) (states pdisk kop kop_tool ops (pf_disk pf)).
 Proof. exact strain_combine_then_chef. Qed.
 Print Assumptions C14_chain_then_chef.
+
+(* ALL THREE WRITERS.  Every finite sequence of colander, combine and chef (user
+   recipe) runs - in any order, chef anywhere in the chain - whose pure
+   counterpart is defined succeeds on the directory image of a good plotfile,
+   ends on the image of the composed pure operations (fop_pure: spec_step,
+   combine_pure, chef_spec), and every intermediate directory is the image of a
+   good plotfile.  A cooked plotfile is good because the model's stand-ins for
+   the printed minima / maxima are float literals without commas
+   (ChefTokenProofs); cooking is defined (cook_defined) on 3D plotfiles when the
+   kept indices are in range and the recipe answers on every box with components
+   of the box's size, as many, with the kept ones, as the output names. *)
+Theorem C14_full_chain : forall ops pf pf',
+  good pf -> Forall fop_ok ops -> fpure ops pf = Some pf' ->
+  run pdisk fop fop_tool ops (pf_disk pf) = Some (pf_disk pf') /\ good pf' /\
+  Forall (fun d => exists p, good p /\ d = pf_disk p) (states pdisk fop fop_tool ops (pf_disk pf)).
+Proof. exact full_pipeline. Qed.
+Print Assumptions C14_full_chain.
+
+(* ... each of which the validator accepts: tool outputs are valid inputs, chef's included *)
+Theorem C14_full_outputs_accepted : forall close ops pf pf' o limit lim,
+  good pf -> Forall fop_ok ops -> fpure ops pf = Some pf' ->
+  eff_limit (g_max_level (pf_g pf')) limit = Some lim -> 0 <= lim ->
+  (t_data o && negb (t_headers o && t_shape o)) = false ->
+  taste_good close o limit (pf_disk pf') = true.
+Proof. exact full_outputs_taste_good. Qed.
+Print Assumptions C14_full_outputs_accepted.
+
+(* non-vacuity: cook (keeping field 1), combine the cooked plotfile with the
+   original, strain two fields - on the two-level plotfile of C11, level 1 in
+   on-disk order (1, 0) *)
+Definition ex14_ops : list fop :=
+  [FCook ex11_recipe [1] [bs "b"; bs "half"]; FCombine [bs "half"] [bs "a"; bs "b"] ex11_pf; FStrain [bs "b"; bs "half"] (Some 0)].
+Example C14_full_example :
+  good ex11_pf /\ Forall fop_ok ex14_ops /\
+  (exists pf', fpure ex14_ops ex11_pf = Some pf' /\
+               run pdisk fop fop_tool ex14_ops (pf_disk ex11_pf) = Some (pf_disk pf') /\
+               g_names (pf_g pf') = [bs "b"; bs "half"] /\ g_max_level (pf_g pf') = 0).
+Proof.
+  assert (Hg : good ex11_pf).
+  { unfold good, wf_plotfile, std_dirs, wf_counts, wf_rows, wf_gheader, wf_plevel, wf_lvboxes, no_char. cbn.
+    repeat solve_good_step. }
+  split; [exact Hg|]. split.
+  - constructor; [exact I|]. constructor; [exact Hg|]. constructor; [exact I | constructor].
+  - destruct (fpure ex14_ops ex11_pf) as [pf'|] eqn:E; [|vm_compute in E; discriminate].
+    exists pf'. split; [reflexivity|].
+    assert (Hok : Forall fop_ok ex14_ops) by (constructor; [exact I|]; constructor; [exact Hg|]; constructor; [exact I | constructor]).
+    destruct (full_pipeline ex14_ops ex11_pf pf' Hg Hok E) as (Hrun & _ & _).
+    split; [exact Hrun|]. vm_compute in E. injection E as <-. split; reflexivity.
+Qed.
 
 Theorem C14_outputs_accepted : forall close ops pf pf' o limit lim,
   good pf -> Forall kop_ok ops -> kpure ops pf = Some pf' ->
